@@ -934,6 +934,115 @@ def probe_last_millisecond(sess):
 
 
 # --------------------------------------------------------------------------
+# (D) one command = one step with respect to the clock: big multi-member sorted-set writes whose EXECUTION straddles the deadline
+# --------------------------------------------------------------------------
+def straddle_layer(sess, tier):
+    """`ZADD z 0 seed; PEXPIRE z <ttl>` with ttl inside the execution time of a ZADD of N pairs (queued in MULTI so that
+    the frame is parsed before the clock starts; EXEC runs the ordinary handler), likewise ZPOPMIN z N and, thorough tier,
+    ZREM of N members.  Oracle: the command ran wholly before the deadline or wholly after it - afterwards the key is absent
+    (everything expired) or holds exactly the N members with no TTL; a pop / removal returns nothing or everything.
+    A strict subset means the command saw the key both ways.  Returns one record per command."""
+    N = 12000
+    a, b = sess.srv.client(30), sess.srv.client(30)
+    for c in (a, b):
+        c.cmd("SELECT", "15")
+    members = ["m%06d" % i for i in range(N)]
+    zadd = ["ZADD", "z"]
+    for i, m in enumerate(members):
+        zadd += [str(i), m]
+    out = []
+
+    def after_deadline(t_set, ttl):
+        d = (t_set + ttl + MARGIN) - sess.ms()
+        if d > 0:
+            time.sleep(d / 1000.0)
+
+    def queued_exec(args, prepare):
+        """MULTI; <args> (QUEUED); prepare() on the other connection; EXEC -> (reply of the command, exec seconds, prepare result)"""
+        if a.cmd("MULTI") != ("s", b"OK") or a.cmd(*args) != ("s", b"QUEUED"):
+            raise InternalError("straddle layer: MULTI / queueing failed")
+        pr = prepare()
+        t = time.monotonic()
+        r = a.cmd("EXEC", timeout=30)
+        dt = time.monotonic() - t
+        if r[0] != "a" or len(r[1]) != 1:
+            raise InternalError("straddle layer: EXEC answered %r" % (r,))
+        return r[1][0], dt, pr
+
+    def run(name, setup, fire, judge, calib, side_of):
+        """calibrate the execution time without TTL, then aim the deadline into it"""
+        setup()
+        _, dt, _ = fire(lambda: None)
+        rec = {"cmd": name, "members": N, "exec_ms": round(dt * 1000, 1), "attempts": [], "subset": None}
+        # bisection on the TTL: "ran wholly before the deadline" -> aim earlier, "wholly after" -> aim later
+        lo, hi = 0.0, dt * 1000
+        for _ in range(8 if tier == "quick" else 14):
+            ttl = max(1, int(round((lo + hi) / 2)))
+            setup()
+
+            def arm():
+                r = b.cmd("PEXPIRE", "z", str(ttl))
+                return (r, sess.ms())
+            reply, dt2, (pr, t_set) = fire(arm)
+            if pr != ("i", 1):
+                raise InternalError("straddle layer: PEXPIRE answered %r" % (pr,))
+            after_deadline(t_set, ttl)
+            card, pttl = b.cmd("ZCARD", "z")[1], b.cmd("PTTL", "z")[1]
+            att = {"ttl_ms": ttl, "reply": judge(reply), "exec_ms": round(dt2 * 1000, 1), "zcard_after": card, "pttl_after": pttl}
+            sess.rep.evaluations += 1
+            rec["attempts"].append(att)
+            ok = calib(att)
+            side = side_of(att) if ok else "subset"
+            att["outcome"] = side
+            sess.rep.nontrivial(("straddle", name, side))
+            if not ok:
+                rec["subset"] = att
+                break
+            if side == "whole-before":
+                hi = ttl
+            else:
+                lo = ttl
+            if hi - lo < 1:
+                lo, hi = max(0.0, lo - 2), hi + 2
+        b.cmd("DEL", "z")
+        out.append(rec)
+
+    # ZADD: everything new; before = all N+1 expired (ZCARD 0), after = exactly N, no TTL
+    def zadd_setup():
+        b.cmd("DEL", "z")
+        b.cmd("ZADD", "z", "0", "seed")
+    run("ZADD z <%d pairs>" % N, zadd_setup, lambda prep: queued_exec(zadd, prep),
+        lambda r: r[1] if r[0] == "i" else repr(r),
+        lambda at: at["reply"] == N and (at["zcard_after"] == 0 or (at["zcard_after"] == N and at["pttl_after"] == -1)),
+        lambda at: "whole-before" if at["zcard_after"] == 0 else "whole-after")
+
+    # ZPOPMIN z N on N members with a TTL: pops everything (before) or nothing (after); the key is gone either way
+    def full_setup():
+        b.cmd("DEL", "z")
+        if b.cmd(*zadd, timeout=30) != ("i", N):
+            raise InternalError("straddle layer: set-up ZADD failed")
+
+    def pop_fire(prep):
+        pr = prep()
+        t = time.monotonic()
+        r = a.cmd("ZPOPMIN", "z", str(N), timeout=30)
+        return r, time.monotonic() - t, pr
+    run("ZPOPMIN z %d" % N, full_setup, pop_fire,
+        lambda r: len(r[1]) // 2 if r[0] == "a" else 0 if r[0] == "na" else repr(r),
+        lambda at: at["reply"] in (0, N) and at["zcard_after"] == 0,
+        lambda at: "whole-before" if at["reply"] == N else "whole-after")
+    if tier != "quick":
+        zrem = ["ZREM", "z"] + members
+        run("ZREM z <%d members>" % N, full_setup, lambda prep: queued_exec(zrem, prep),
+            lambda r: r[1] if r[0] == "i" else repr(r),
+            lambda at: at["reply"] in (0, N) and at["zcard_after"] == 0,
+            lambda at: "whole-before" if at["reply"] == N else "whole-after")
+    a.close()
+    b.close()
+    return out
+
+
+# --------------------------------------------------------------------------
 # verdict
 # --------------------------------------------------------------------------
 def match_finding(fs, tag):
@@ -1089,7 +1198,9 @@ def main(tier, seed):
                 "(TTL x1000) and an absent twin; reply classified present/absent on server and model, stored state read through EXISTS/PTTL/TYPE; "
                 "(B) random schedules on a 300 ms grid (TTL-setting in set slots, other commands 100/200 ms later: >= 60 ms from every deadline), 2-3 databases x 3 keys, "
                 "sweeper stepped one pass at a time or parked at the gate between collect and delete with 1-3 commands in the window, exact replies vs model of the code and vs prescribed store, dataset at the end; "
-                "(C) scripted: 7 window commands at the gate, 16 stale-index / elapsed-TTL cases with the sweeper running (>= 2 passes awaited). "
+                "(C) scripted: 7 window commands at the gate, 16 stale-index / elapsed-TTL cases with the sweeper running (>= 2 passes awaited); "
+                "(D) one command = one clock reading: ZADD of 12000 pairs (queued in MULTI, run by EXEC), ZPOPMIN 12000 (thorough: ZREM of 12000 members) with PEXPIRE aimed into the "
+                "calibrated execution time by bisection (up to 8 attempts): afterwards the key must be absent or hold exactly the new members without TTL, a pop must return nothing or everything. "
                 "Every request bracketed with the monotonic clock, model time = bracket midpoint, out-of-window items discarded and counted. "
                 "distinct = (part, command or key, type, phase, outcome class) tuples" % len(matrix_commands(b"x")))
     rep.assumptions = [
@@ -1109,7 +1220,7 @@ def main(tier, seed):
     fs = findings()
     v = Verdict(rep, fs)
     rep.extra["switches"] = {"sweeperRechecks": f["sweeperRechecks"], "centralLazy": f["centralLazy"], "setValueDropsStale": d["setValueDropsStale"],
-                             "setNxDropsStale": d["setNxDropsStale"], "renameMovesIndex": d["renameMovesIndex"], "emptiedDropsIndex": d["emptiedDropsIndex"], "ttlLastMsFixed": f.get("ttlLastMsFixed"),
+                             "setNxDropsStale": d["setNxDropsStale"], "renameMovesIndex": d["renameMovesIndex"], "emptiedDropsIndex": d["emptiedDropsIndex"], "ttlLastMsFixed": f.get("ttlLastMsFixed"), "zsetOneCall": f.get("zsetOneCall"),
                              "lazyChecked": d["lazyChecked"], "notLazy": d["notLazy"]}
     timing = {"proof_and_build": round(time.time() - rep.t0, 1)}
     sess = Session(rep, cfg_line(f, d))
@@ -1175,6 +1286,25 @@ def main(tier, seed):
         rep.extra["schedules_run"] = done
         timing["schedules"] = round(time.time() - tp, 1)
         rep.extra["phase_seconds"] = timing
+        # (D) one command = one clock reading
+        tp = time.time()
+        recs = straddle_layer(sess, tier)
+        rep.extra["straddle"] = recs
+        for rec in recs:
+            if rec["subset"]:
+                at = rec["subset"]
+                what = ("%s whose execution (%.0f ms) straddled the key's deadline (PEXPIRE z %d just before) saw the key both ways: reply %s, afterwards ZCARD z = %s, PTTL z = %s "
+                        "(a command is one step: all-before = everything expired, all-after = exactly the new members without TTL)" % (
+                            rec["cmd"], at["exec_ms"], at["ttl_ms"], at["reply"], at["zcard_after"], at["pttl_after"]))
+                fnd = None if f.get("zsetOneCall") else match_finding(fs, "multi-member:per-call")
+                rep.count("oracle_failures")
+                if fnd:
+                    v.known.setdefault(fnd["id"], fnd)
+                    rep.count("known.multi-member:per-call")
+                else:
+                    v.unexplained.append((what, {"kind": "straddle", "record": rec}))
+        timing["straddle"] = round(time.time() - tp, 1)
+        rep.extra["phase_seconds"] = timing
         # the last millisecond (informational)
         try:
             hits, spanned = probe_last_millisecond(sess)
@@ -1227,6 +1357,11 @@ def replay(path):
             judge_scenario(v, rep, sc)
             for s in sc["state"]:
                 print("%-6s server %s | model of the code %s | prescribed %s" % (s["key"], s["impl"], s["code"], s["spec"]))
+        elif kind == "straddle":
+            for rec in straddle_layer(sess, "quick"):
+                print("%s: execution %.1f ms; attempts %s" % (rec["cmd"], rec["exec_ms"], rec["attempts"]))
+                if rec["subset"]:
+                    v.unexplained.append(("%s saw the key both ways: %s" % (rec["cmd"], rec["subset"]), {}))
         elif kind == "schedule":
             rr = Rng(rp["schedule_seed"] * 1000003 + rp["index"])
             sess.pause()
